@@ -2,6 +2,7 @@ import ChythonModel.Proofs.C07Complete
 import ChythonModel.Proofs.C07WF
 import ChythonModel.Proofs.C07Product
 import ChythonModel.Proofs.C07Compile
+import ChythonModel.Proofs.C07Stack
 /-!
 # C07 — substructure search returns exactly the set of valid embeddings
 
@@ -132,6 +133,28 @@ theorem model_component_exact (q t : Graph) (hq : q.WF = true) (ht : t.WF = true
       ∃ f, m = asDict (lq.map (·.front)) f ∧ EmbedsComp q t (lq.map (·.front)) scope atomOk bondOk f) ∧
     (recMapping (envOf t lq cl scope atomOk bondOk)).Nodup :=
   component_exact q t comps cl hq ht (compile_covers q hq comps cl hcq) lq hlq scope atomOk bondOk hb
+
+/-- **`stack_refines_rec`**: the explicit stack machine (`_get_mapping`: `stack`, `path`, `mapping`, `reversed_mapping`,
+    truncation on backtracking, closure-set test on the dictionaries) never crashes, never runs out of the fuel
+    `machineFuel`, and yields exactly the list — same mappings, same order — the recursive enumerator yields. -/
+theorem stack_refines_rec (q t : Graph) (comps : List (List Step)) (cl : Closures) (hq : q.WF = true) (ht : t.WF = true)
+    (hc : CompiledOK q comps cl) (lq : List Step) (hlq : lq ∈ comps) (scope : Nat → Bool)
+    (atomOk : Nat → Nat → Bool) (bondOk : Nat → Nat → Nat → Nat → Bool) (hb : BondSymm bondOk) :
+    getMapping (envOf t lq cl scope atomOk bondOk) = some (recMapping (envOf t lq cl scope atomOk bondOk)) :=
+  getMapping_eq_rec q _ (setting_of q t comps cl hq ht hc lq hlq scope atomOk bondOk hb) (wf_ok t ht).nbrs_nodup
+
+/-- **`getMapping_exact`** — the statement about the function the code runs: for every well-formed pattern `q` and target
+    `t`, every component `lq` of the model's own linearisation `compileQuery q`, every scope and every (direction
+    independent) compatibility relation, the module-level `_get_mapping` terminates normally with a duplicate-free list whose
+    members are exactly the dicts of the valid embeddings of that component inside the scope. -/
+theorem getMapping_exact (q t : Graph) (hq : q.WF = true) (ht : t.WF = true) (comps : List (List Step))
+    (cl : Closures) (hcq : compileQuery q = some (comps, cl)) (lq : List Step) (hlq : lq ∈ comps) (scope : Nat → Bool)
+    (atomOk : Nat → Nat → Bool) (bondOk : Nat → Nat → Nat → Nat → Bool) (hb : BondSymm bondOk) :
+    ∃ r, getMapping (envOf t lq cl scope atomOk bondOk) = some r ∧ r.Nodup ∧
+      ∀ m, m ∈ r ↔ ∃ f, m = asDict (lq.map (·.front)) f ∧ EmbedsComp q t (lq.map (·.front)) scope atomOk bondOk f := by
+  have hc := compile_covers q hq comps cl hcq
+  have hx := component_exact q t comps cl hq ht hc lq hlq scope atomOk bondOk hb
+  exact ⟨_, stack_refines_rec q t comps cl hq ht hc lq hlq scope atomOk bondOk hb, hx.2, hx.1⟩
 
 /-- **Scope**: with a scope the result is exactly the embeddings all of whose images lie inside it — stated as: the
     result for scope `s` is the result without scope filtered by "every image is in `s`" (as sets of dicts). -/
@@ -274,16 +297,5 @@ example : getMapping (envOf tMixed [⟨1, none⟩, ⟨2, some 1⟩, ⟨3, some 2
     some (recMapping (envOf tMixed [⟨1, none⟩, ⟨2, some 1⟩, ⟨3, some 2⟩] [(2, []), (3, [])] (fun _ => true)
     (fun _ _ => true) (fun _ _ _ _ => true))) := by decide
 example : (autoFilter [[(1, 20), (2, 21)], [(1, 21), (2, 20)], [(1, 21), (2, 22)]]).length = 2 := by decide
-
-/-! ## open obligations (full statements kept visible; covered at run time by the driver on every case) -/
-
-/-- the explicit stack machine yields exactly the list the recursive enumerator yields (same order). NOT proved here;
-    the driver evaluates both on every correspondence case and reports `rec=0` on any difference, and both are compared
-    with the real `_get_mapping`. -/
-def StackRefinesRec : Prop :=
-  ∀ (q t : Graph) (comps : List (List Step)) (cl : Closures), q.WF = true → t.WF = true →
-    CompiledOK q comps cl → ∀ lq ∈ comps, ∀ (scope : Nat → Bool) (atomOk : Nat → Nat → Bool)
-      (bondOk : Nat → Nat → Nat → Nat → Bool),
-      getMapping (envOf t lq cl scope atomOk bondOk) = some (recMapping (envOf t lq cl scope atomOk bondOk))
 
 end ChythonModel.Props.C07
